@@ -1,14 +1,2 @@
-(* generated by translate.py from /repo/src/funtracks/actions/action_history.py  sha256=25aa7ddf333ec779 *)
-From Coq Require Import List Arith Bool ZArith.
-Import ListNotations.
-Open Scope Z_scope.
-Definition is_nil {A} (l:list A) := match l with [] => true | _ => false end.
-Section History_gen.
-Variables (St Act : Type) (inv : St -> Act -> St * Act) (dA : Act).
-Record hist := { cur : St; undo_stack : list Act; redo_stack : list Act }.
-Definition init (s:St) : hist := {| cur := s; undo_stack := []; redo_stack := [] |}.
-Definition undo_pointer (h:hist) : Z := ((Z.of_nat (length (undo_stack h)) - Z.of_nat (length (redo_stack h))) - (1)).
-Definition add_new_action (h:hist) (action:Act) (s':St) : hist * unit := (if (Z.of_nat (length (redo_stack h)) >? (0)) then ({| cur := s'; undo_stack := (((undo_stack h) ++ (redo_stack h)) ++ [action]); redo_stack := [] |}, tt) else ({| cur := s'; undo_stack := ((undo_stack h) ++ [action]); redo_stack := (redo_stack h) |}, tt)).
-Definition undo (h:hist) : hist * bool := (if ((undo_pointer {| cur := (cur h); undo_stack := (undo_stack h); redo_stack := (redo_stack h) |}) <? (0)) then ({| cur := (cur h); undo_stack := (undo_stack h); redo_stack := (redo_stack h) |}, false) else (let '(s1, b1) := inv (cur h) (nth (Z.to_nat (undo_pointer {| cur := (cur h); undo_stack := (undo_stack h); redo_stack := (redo_stack h) |})) (undo_stack h) dA) in ({| cur := s1; undo_stack := (undo_stack h); redo_stack := ((redo_stack h) ++ [b1]) |}, true))).
-Definition redo (h:hist) : hist * bool := (if (Z.of_nat (length (redo_stack h)) =? (0)) then ({| cur := (cur h); undo_stack := (undo_stack h); redo_stack := (redo_stack h) |}, false) else (let '(s2, _) := inv (cur h) (last (redo_stack h) dA) in ({| cur := s2; undo_stack := (undo_stack h); redo_stack := (removelast (redo_stack h)) |}, true))).
-End History_gen.
+(* TRANSLATION FAILED: line 32: statement: While(test=Attribute(value=Name(id='self', ctx=Load()), attr='redo_stack', ctx=Load()), body=[Expr(value=Call(func=Attri *)
+Definition translation_failed : False := I.
